@@ -3,7 +3,8 @@ import copy, glob, json, os, random, re
 import vlib, specgen, inv, arena
 from vlib import Result, log
 
-THEOREMS = ["C19_display_escaped", "C19_display_unescaped_refuted", "C19_mixed_path", "C19_nonvacuous"]
+THEOREMS = ["C19_display_escaped", "C19_display_unescaped_refuted", "C19_mixed_path", "C19_nonvacuous", "C19_doc_lines_single",
+            "C19_doc_phys_lines_single", "C19_doc_phys_lines_content", "C19_doc_lines_unnormalized_refuted", "C19_doc_nonvacuous"]
 TARGETS = ["Props/C19.v"]
 INERT = "INERTxq7"
 
@@ -152,7 +153,7 @@ def main(tier, seed, replay=None):
     res = Result("C19", tier, seed)
     vlib.build_repo()
     vlib.build_vtool()
-    coq_ok, out = vlib.standard_coq_obligations(res, TARGETS, THEOREMS, expect_closed=2)
+    coq_ok, out = vlib.standard_coq_obligations(res, TARGETS, THEOREMS, expect_closed=5)
     cur = inv.current()
     ok, detail, n, gone = inv.compare("splice", cur)
     res.oblige(f"inventory: every place where a String becomes tokens other than through a literal ({n} site keys) is in the reviewed list", ok, detail)
@@ -172,7 +173,7 @@ def main(tier, seed, replay=None):
     jobs = [("inert", None, m) for m in modes] + [(pos[0], pl, m) for pos in POS_UNIQ for pl in (PATTERN_PAYLOADS if pos[2] == "rawpattern" else NUMTEXT_PAYLOADS if pos[2] == "numtext" else payloads + ["beta", "two", "Beta"] if pos[2] == "enumdefault" else payloads + (["v2/", "a//", "x*/"] if pos[0].startswith("servers") else [])) for m in modes]
     if replay:
         r = json.load(open(replay))
-        jobs = [("inert", None, r["mode"]), (r["position"], r["payload"], r["mode"])]
+        jobs = [("inert", None, r["mode"])] + ([(r["position"], r["payload"], r["mode"])] if r["position"] != "doc-lines" else [])
     posmap = {p[0]: p for p in POS_UNIQ}
 
     def one(j):
@@ -248,6 +249,57 @@ def main(tier, seed, replay=None):
                 emitted_inert = [l for l in inert_lits if marker in l and (len(marker) > 3 or l.split(":", 1)[1].strip().strip('"') == marker)]
                 if emitted_inert and not found:
                     viol.append((posname, pl, mode, f"payload {pl[:30]!r} at {posname}: not recoverable byte-for-byte from the literals/doc lines of the output"))
+    # doc-line correspondence: coq/Model/DocLines.v (normalize_line_breaks + str::lines) against the doc lines the
+    # generator emits for a schema description and for the title, on random CR / LF / CRLF mixtures
+    n_doc, doc_dist = 0, {}
+    if not replay or json.load(open(replay))["position"] == "doc-lines":
+        ALPH = ["a", "b", " ", "\r", "\n", "\r\n", "\u00e9", "x y"]
+        texts = ["a\rb", "a\r\nb", "a\n\rb", "a\r\r\nb", "\ra", "a\r", "a\n", "\n", "\r\n\r", "a\n\nb", "plain", "a\r\n\r\nb\r"]
+        for _ in range(28 if tier == "quick" else 300):
+            texts.append("".join(rnd.choice(ALPH) for _ in range(rnd.randint(1, 14))))
+        texts = [t for t in dict.fromkeys(texts)]
+        if replay:
+            texts = [json.load(open(replay))["payload"]]
+
+        def doc_one(k):
+            t = texts[k]
+            spec = {"openapi": "3.1.0", "info": {"title": "T" + t, "version": "1"}, "paths": {},
+                    "components": {"schemas": {"Zq": {"type": "object", "description": t, "properties": {"f": {"type": "string"}}}}}}
+            sp = os.path.join(d, f"doc_{k}.json")
+            json.dump(spec, open(sp, "w"))
+            outp = os.path.join(d, f"doc_{k}.rs")
+            rc, txt = vlib.oas(["generate", "types", "-i", sp, "-o", outp, "-q", "--all-schemas"], timeout=60)
+            return rc, txt[-200:], outp
+        dres = vlib.pmap(doc_one, range(len(texts)))
+        okf = [r[2] for r in dres if r[0] == 0]
+        dsk = {x["file"]: x for x in vlib.vtool_lines("skeleton", okf)}
+        inputs = [("T" + t) for t in texts] + texts
+        model = vlib.coq_doc_lines(d, inputs)
+        for k, t in enumerate(texts):
+            rc, txt, outp = dres[k]
+            n_doc += 1
+            kind = "crlf" if "\r\n" in t else "cr" if "\r" in t else "lf" if "\n" in t else "none"
+            doc_dist[kind] = doc_dist.get(kind, 0) + 1
+            if rc != 0 or outp not in dsk or "error" in dsk[outp]:
+                viol.append(("doc-lines", t, "types", f"description/title {t!r}: generator failed or output does not parse: {txt}"))
+                continue
+            docs = [l[4:] for l in dsk[outp]["literals"] if l.startswith("doc:")]
+            try:
+                i0, i1 = docs.index(" AUTO-GENERATED CODE - DO NOT EDIT!") + 2, next(i for i, l in enumerate(docs) if l.startswith(" Source: "))
+                i2 = next(i for i, l in enumerate(docs) if l.startswith(" Generated by ")) + 2
+            except (ValueError, StopIteration):
+                viol.append(("doc-lines", t, "types", f"description/title {t!r}: file header not found in the doc lines"))
+                continue
+            canon = lambda ls: [(" " + l).rstrip(" ") for l in ls]
+            got_title, got_desc = [l.rstrip(" ") for l in docs[i0:i1]], [l.rstrip(" ") for l in docs[i2:]]
+            if model is None:
+                continue
+            want_title, want_desc = canon(model[k]), canon(model[len(texts) + k])
+            if got_title != want_title:
+                viol.append(("doc-lines", t, "types", f"title {'T' + t!r}: header doc lines {got_title} differ from the model's {want_title} (Model/DocLines.v)"))
+            elif got_desc != want_desc:
+                viol.append(("doc-lines", t, "types", f"schema description {t!r}: doc lines {got_desc} differ from the model's {want_desc} (Model/DocLines.v)"))
+        res.oblige("Model/DocLines.v evaluated by coqc on the same texts as the generator", model is not None, "coqc failed on the cases file")
     # Display of enum values (template site): compile and print
     n_disp = 0
     vals = ["x{}y", "p{{q", "r}s", "a{b}c", "plain", "u{0}v", "q\"uote", "back\\slash", "w{:?}z"]
@@ -278,12 +330,12 @@ def main(tier, seed, replay=None):
                     viol.append(("enum-display", json.loads(a), "types", f"Display of enum value {a} prints {b}"))
     else:
         viol.append(("enum-display", vals, "types", f"generator failed on brace/quote enum values: {txt[-200:]}"))
-    res.counts.update({"evaluations": len(jobs) + n_disp, "distinct_nontrivial": n_cmp, "payloads": len(payloads), "positions": len(POSITIONS),
+    res.counts.update({"evaluations": len(jobs) + n_disp + n_doc, "doc_line_texts": n_doc, "doc_line_text_kinds": doc_dist, "distinct_nontrivial": n_cmp, "payloads": len(payloads), "positions": len(POSITIONS),
                        "traces_validated_against_impl": len(jobs),
                        "rule": "a catalogue of injection payloads (quote/escape breakers, comment terminators, `]`, attribute syntax, format braces, raw-string terminators, newlines, NUL, bidi control, code fragments; 64 KiB text in thorough) substituted at every text-bearing position of a corpus spec (title, descriptions, summaries, defaults, examples, const, pattern, server URL, enum values, schema title) x modes, compared with the inert run: syn token skeleton with string literals erased (identifiers also erased only where the text is by design the source of one identifier) and payload recoverability from literal values; plus compiled Display of brace/quote enum values"})
     for posname, pl, mode in jobs[3:6]:
         res.sample({"position": posname, "payload": pl, "mode": mode})
-    res.cov["trusted_base"] = vlib.COMMON_TRUSTED + ["coq/Model/Splice.v: std::fmt positional template semantics (hand model)", "quote!/LitStr produce one literal token whose value is the string (proc_macro2 contract)", "tools/vtool skeleton + inventory"]
+    res.cov["trusted_base"] = vlib.COMMON_TRUSTED + ["coq/Model/Splice.v: std::fmt positional template semantics (hand model)", "coq/Model/DocLines.v: str::replace + str::lines on bytes (hand model, run against the generator on random CR/LF/CRLF texts; trailing blanks of a doc line are not compared: the pretty-printer trims them)", "quote!/LitStr produce one literal token whose value is the string (proc_macro2 contract)", "tools/vtool skeleton + inventory"]
     res.assumptions = ["header names and media types are not payload positions (they must be valid header names / media types to be accepted at all)",
                        "regex patterns are injected escaped (an invalid regex is dropped by design)"]
     kf = {k["key"]: k["text"] for k in vlib.known_findings("C19")}
